@@ -36,7 +36,7 @@ func H_C13_render() {
 		for i := 0; i < n; i++ {
 			c := vxrt.Text(label, 1)
 			// line content: one byte that is neither a newline, ESC, nor one of the report's own markers
-			vxrt.Assume(vxrt.And(vxrt.And(c[0] >= 'a', c[0] <= 'z'), true))
+			vxrt.Assume(vxrt.Or(vxrt.And(c[0] >= 'a', c[0] <= 'z'), c[0] == '%'))
 			text += c
 			lines = append(lines, c+"\n")
 			if i < n-1 {
